@@ -16,8 +16,9 @@ an input of the model.
 Go's slice indexing is modelled with checked indexing: every `xs[i]` of the Go code is an
 `xs[i]?` here, and the `none` branch returns `Except.error Panic.index` (= a Go
 "index out of range" run-time panic).  `Props/C44.lean` proves that this branch is unreachable in
-`VerifyBytes` for ALL inputs.  A method call on a nil `crypto.PubKey` interface value (amino decodes
-an empty `Any` into a nil element of `PubKeys`) is `Panic.nilKey`.
+`VerifyBytes` for ALL inputs.  A nil `crypto.PubKey` interface value (amino decodes an empty `Any`
+into a nil element of `PubKeys`) is a key `none`; since /repo e5e21f6a46 `VerifyBytes` checks for it
+and returns false instead of calling a method on it.
 
 Signatures and single-key verification are abstract: a signature is a value of an arbitrary type
 `σ`, key `i` is `Option (σ → Bool)` (`none` = nil interface; the message is fixed and baked into
@@ -32,8 +33,6 @@ namespace GnoVerif.C44
 inductive Panic where
   /-- index / slice bounds out of range -/
   | index
-  /-- method call on a nil `crypto.PubKey` interface value -/
-  | nilKey
   /-- `amino.MustUnmarshal` on undecodable bytes (only in the ante handler's gas consumer) -/
   | decode
 deriving DecidableEq, Repr
@@ -182,7 +181,8 @@ def verifyLoopE {σ : Type} (keys : List (Key σ)) (ba : BA) (sigs : List σ) : 
       else match keys[i]?, sigs[si]? with
         | some (some vf), some s =>
           if !vf s then .ok false else verifyLoopE keys ba sigs rem (i + 1) (si + 1)
-        | some none, some _ => .error .nilKey
+        -- a decoded key may hold a nil constituent key
+        | some none, some _ => .ok false
         | _, _ => .error .index
     else verifyLoopE keys ba sigs rem (i + 1) si
 
@@ -192,6 +192,9 @@ def verifyBytesE {σ : Type} (k : UInt64) (keys : List (Key σ)) (dec : Option (
   match dec with
   | none => .ok false
   | some sig =>
+    -- `pk.K == 0 || uint64(pk.K) > uint64(len(pk.PubKeys))`: a decoded key can carry a threshold
+    -- of 0 or one above the number of keys (int(pk.K) is negative for K ≥ 2^63)
+    if k.toNat = 0 ∨ k.toNat > keys.length then .ok false else
     let size := sig.ba.size
     -- ensure bit array is the correct size
     if (keys.length : Int) ≠ size then .ok false
@@ -247,11 +250,12 @@ def AllMarkedValid {σ : Type} (keys : List (Key σ)) (m : MSig σ) (n : Nat) : 
   ∀ j (h : j < (marked m.ba n).length),
     ∃ s, m.sigs[j]? = some s ∧ keyAccepts keys ((marked m.ba n)[j]) s = true
 
-/-- The acceptance condition of `VerifyBytes`, declaratively: the signature bytes decode, the bit
-    array claims exactly `n = len(PubKeys)` positions, `int(K) ≤ len(Sigs) ≤ n`, at least `int(K)`
-    positions are marked and every marked position carries (in order) a valid signature. -/
+/-- The acceptance condition of `VerifyBytes`, declaratively: the signature bytes decode, the key
+    is a genuine k-of-n key (`1 ≤ K ≤ n`), the bit array claims exactly `n = len(PubKeys)`
+    positions, `int(K) ≤ len(Sigs) ≤ n`, at least `int(K)` positions are marked and every marked
+    position carries (in order) a valid signature. -/
 def Accept {σ : Type} (k : UInt64) (keys : List (Key σ)) (dec : Option (MSig σ)) : Prop :=
-  ∃ m, dec = some m ∧ m.ba.size = (keys.length : Int) ∧
+  ∃ m, dec = some m ∧ 1 ≤ k.toNat ∧ k.toNat ≤ keys.length ∧ m.ba.size = (keys.length : Int) ∧
     kInt k ≤ (m.sigs.length : Int) ∧ m.sigs.length ≤ keys.length ∧
     kInt k ≤ ((marked m.ba keys.length).length : Int) ∧ AllMarkedValid keys m keys.length
 
